@@ -96,6 +96,11 @@ def monitor_inproc(c):
     allev = c["exec"]
     first0 = min([e["t0"] for e in allev], default=None)
     last1 = max([e["t1"] for e in allev], default=None) if all(e["t1"] >= 0 for e in allev) else None
+    for w in c["writes"]:
+        if w.get("dropped"):
+            # the real jsondb.Write dereferences its nil writer after Close: the process would have crashed here
+            out.append(("the agent called the history store's Write after Close (jsondb would panic on its nil writer): write #%d by %s"
+                        % (w["seq"], w["role"]), {"class": "write-after-close"}))
     if "PANIC" in (c.get("run_err") or ""):
         out.append(("agent.Run panicked: " + c["run_err"][:200], {"class": "panic"}))
 
